@@ -57,7 +57,7 @@ def explore(run, expected_exceptions=(), max_paths=20000, feas_timeout_ms=4000, 
         st.feas_unknown += ctx.feas_unknown
         if pruned:
             st.pruned += 1
-            if ctx.safety:
+            if ctx.safety or ctx.obligations:
                 # the path condition became unsatisfiable AFTER some safety conditions had been
                 # asserted (assert-then-assume): e.g. a divisor that is identically zero makes the
                 # rest of the path infeasible.  Those assertions are still obligations.
